@@ -45,6 +45,7 @@ class Check:
         self.explanation = ""
         self.exhaustive_parts: list[str] = []
         self.t0 = time.time()
+        self.incomplete: str | None = None
 
     # -- recording
     def analysed(self, fn: Any) -> None:
